@@ -6,11 +6,11 @@
     whose picks were valid ([EOutOfFuel] marks an invalid pick).
     Not proved here, decided on the implementation's output by the check only: each copy is
     isomorphic to its template, canonical numbering after sort_nodes_by_attr, valence completeness
-    (the hydrogen step is a pysmiles transcript). *)
+    (see the corollary of the hydrogen component's theorem below). *)
 From Coq Require Import String.
 From Coq Require Import List Ascii ZArith Bool.
 From CGV Require Import Base.PyBase Base.PyVal Base.PyGen Sample.GenSupport Gen.SamplerGen Sample.SampleImpl
-     Sample.SampleDefs Sample.SampleSpec Sample.SampleProofs Sample.SampleTree Sample.SampleFragid Sample.SampleAccount
+     Sample.SampleDefs Sample.SampleSpec Sample.SampleProofs Sample.SampleTree Sample.SampleFragid Sample.SampleCopy Sample.SampleAccount
      Sample.SampleValid Sample.SampleExample.
 From CGV Require Base.NxGraph Resolve.GraphOps Resolve.SortProofs Sample.SampleFinal Sample.SampleNumbering.
 Import ListNotations.
@@ -96,6 +96,23 @@ Section C16.
     exists x, choose M misz R pick rng l w = Ok (x, i, rng').
   Proof. intros A. exact (valid_draw_choose M misz R pick). Qed.
 
+  (** copy_iso_template: the molecule is, block by block, the copies of the templates named by the
+      trajectory (start fragment, then one per step); the copy number j has fragment offset j, i.e.
+      its nodes are the nodes with fragid j; node i of a copy has key offset+1+i and ALL attributes
+      of template node i except 'fragid' and the descriptors consumed or withdrawn; the edges
+      without 'bonding' are, block by block, the templates' edges through the merge correspondence
+      with unchanged attributes (orders) *)
+  Theorem C16_copy_iso_template : forall target fuel rng start nm i0 m cw log rng',
+    sample_growth M c0 madd mltb misz R pick cfg target fuel rng start = Ok (nm, i0, m, cw, log, rng') ->
+    exists bs, copies_of m bs /\
+      Forall2 (fun name b => dict_get (c_frags cfg) name = Some (b_tpl b)) (nm :: map r_fragname log) bs /\
+      map b_fo bs = zseq 0 (length bs) /\
+      Forall (fun b => exists es, mk_edges (mk_corr (b_off b) 0 (f_nodes (b_tpl b))) (f_edges (b_tpl b)) = Ok es) bs.
+  Proof. exact (copy_iso_template M c0 madd mltb misz R pick cfg Wf). Qed.
+  Theorem C16_copy_selected_by_fragid : forall sp n b, wf_template (b_tpl b) -> copy_of sp n -> In sp (block_spec b) ->
+    n_fragid n = b_fo b.
+  Proof. exact copy_selected_by_fragid. Qed.
+
   (** descriptor_once: per node and descriptor, occurrences still on the node plus occurrences
       consumed by bonds never increase along a step for old nodes, and start at what the template
       wrote for the nodes of the new copy: no written descriptor is used twice *)
@@ -160,6 +177,8 @@ Print Assumptions C16_tree_of_fragments_membership.
 Print Assumptions C16_choice_valid_draw.
 Print Assumptions C16_valid_draw_accepted.
 Print Assumptions C16_descriptor_once.
+Print Assumptions C16_copy_iso_template.
+Print Assumptions C16_copy_selected_by_fragid.
 Print Assumptions C16_numbering_canonical.
 Print Assumptions C16_sample_numbering_canonical.
 Print Assumptions C16_nonvacuous.
